@@ -531,6 +531,8 @@ proof fn lemma_neg_i32_as_usize(x: i32)
     let ghost f0 = frags(*r);
     let ghost e = *encoding;
     proof { lemma_frags_head(r0); }
+//@@ before /return Err\(XlsError::Len/
+        proof { lemma_frags_head(*r); }
 //@@ before /let cch = /
     let ghost r1 = *r;
     let ghost f1 = frags(*r);
